@@ -1,4 +1,4 @@
-from typing import Optional
+from typing import List, Optional, Tuple
 
 from .tree import BinaryTreeNode
 
@@ -61,138 +61,61 @@ class TreeLayout:
         level: int = 0,
         extremes: Optional["TidierExtreme"] = None,
     ) -> "TreeLayout":
-        if extremes is None:
-            extremes = TidierExtreme()
-
-        # left and right subtree extreme leaf nodes
-        left_extremes = TidierExtreme()
-        right_extremes = TidierExtreme()
-
-        # separation at the root of the current subtree and current level.
-        current_separation = 0.0
-        root_separation = 0.0
-        min_separation = 1.0
-
-        # The offset from left/right children to the root of the current subtree.
-        left_offset_sum = 0.0
-        right_offset_sum = 0.0
-
-        # Avoid selecting as extreme
-        if not node:
-            if extremes.left is not None:
-                extremes.left.level = -1
-
-            if extremes.right is not None:
-                extremes.right.level = -1
-
-            return self
-
-        # Assign the `node.y`, note the left/right child nodes, and recurse
-        node.y = level
-        left = node.left
-        right = node.right
-        self.measure(left, level + 1, left_extremes)
-        self.measure(right, level + 1, right_extremes)
-
-        # A leaf is both the leftmost and rightmost node on the lowest level of the
-        # subtree consisting of itself.
-        if not node.right and not node.left:
-            node.offset = 0
-            extremes.right = extremes.left = node
-            return self
-
-        # if only a single child, assign the next available offset and return.
-        if not node.right or not node.left:
-            node.offset = min_separation
-            extremes.right = extremes.left = node.left if node.left else node.right
-            return self
-
-        # Set the current separation to the minimum separation for the root of the
-        # subtree.
-        current_separation = min_separation
-        left_offset_sum = right_offset_sum = 0
-
-        # Traverse the subtrees until one of them is exhausted, pushing them apart
-        # as needed.
-        loops = 0
-        while left and right:
-            loops = loops + 1
-            if loops > 100000:
-                raise Exception("An impossibly large tree perhaps?")
-
-            if current_separation < min_separation:
-                root_separation += min_separation - current_separation
-                current_separation = min_separation
-
-            if left.right and left.offset:
-                left_offset_sum += left.offset
-                current_separation -= left.offset
-                left = getattr(left, "thread", left.right)
-            elif left.offset is not None:
-                left_offset_sum -= left.offset
-                current_separation += left.offset
-                left = getattr(left, "thread", left.left)
-
-            if right.left and right.offset:
-                right_offset_sum -= right.offset
-                current_separation -= right.offset
-                right = getattr(right, "thread", right.left)
-            elif right.offset is not None:
-                right_offset_sum += right.offset
-                current_separation += right.offset
-                right = getattr(right, "thread", right.right)
-
-        # Set the root offset, and include it in the accumulated offsets.
-        node.offset = (root_separation + 1) / 2
-        assert node.offset is not None
-        left_offset_sum -= node.offset
-        right_offset_sum += node.offset
-
-        # Update right and left extremes
-        right_left_level = getattr(right_extremes.left, "level", -1)
-        left_left_level = getattr(left_extremes.left, "level", -1)
-        if right_left_level > left_left_level or not node.left:
-            extremes.left = right_extremes.left
-            if extremes.left:
-                assert extremes.left.offset is not None
-                extremes.left.offset += node.offset
-
-        else:
-            extremes.left = left_extremes.left
-            if extremes.left:
-                assert extremes.left.offset is not None
-                extremes.left.offset -= node.offset
-
-        left_right_level = getattr(left_extremes.right, "level", -1)
-        right_right_level = getattr(right_extremes.right, "level", -1)
-        if left_right_level > right_right_level or not node.right:
-            extremes.right = left_extremes.right
-            if extremes.right:
-                assert extremes.right.offset is not None
-                extremes.right.offset -= node.offset
-
-        else:
-            extremes.right = right_extremes.right
-            if extremes.right:
-                assert extremes.right.offset is not None
-                extremes.right.offset += node.offset
-
-        # If the subtrees have uneven heights, check to see if they need to be
-        # threaded.  If threading is required, it will affect only one node.
-        if left and left != node.left and right_extremes and right_extremes.right:
-            right_extremes.right.thread = left
-            assert right_extremes.right.offset is not None
-            right_extremes.right.offset = abs(
-                right_extremes.right.offset + node.offset - left_offset_sum
-            )
-        elif right and right != node.right and left_extremes and left_extremes.left:
-            left_extremes.left.thread = right
-            assert left_extremes.left.offset is not None
-            left_extremes.left.offset = abs(
-                left_extremes.left.offset - node.offset - right_offset_sum
-            )
-
+        """Assign `node.y` (the level) and `node.offset` (the horizontal distance from
+        a node to each of its children) for every node of the subtree."""
+        if node is not None:
+            self._measure(node, level)
         return self
+
+    def _measure(
+        self, node: BinaryTreeNode, level: int
+    ) -> Tuple[List[float], List[float]]:
+        """Measure a subtree and return its left and right contours: for each level
+        of the subtree the smallest and the largest x position of a node on that
+        level, relative to the root of the subtree."""
+        min_separation = 1.0
+        node.y = level
+        left = self._measure(node.left, level + 1) if node.left else None
+        right = self._measure(node.right, level + 1) if node.right else None
+
+        # A leaf is both the leftmost and rightmost node of its own subtree.
+        if left is None and right is None:
+            node.offset = 0
+            return [0.0], [0.0]
+
+        # A single child is placed one unit to its side of the parent.
+        if left is None or right is None:
+            node.offset = min_separation
+            contours = left if left is not None else right
+            assert contours is not None
+            shift = -node.offset if left is not None else node.offset
+            return (
+                [0.0] + [x + shift for x in contours[0]],
+                [0.0] + [x + shift for x in contours[1]],
+            )
+
+        # Push the two subtrees apart until, on every level they share, the right
+        # contour of the left subtree is at least one unit away from the left
+        # contour of the right subtree. The parent is centered above them.
+        separation = min_separation
+        for left_max, right_min in zip(left[1], right[0]):
+            separation = max(separation, left_max - right_min + min_separation)
+        node.offset = separation / 2
+
+        left_contour = [0.0]
+        right_contour = [0.0]
+        for depth in range(max(len(left[0]), len(right[0]))):
+            lows = []
+            highs = []
+            if depth < len(left[0]):
+                lows.append(left[0][depth] - node.offset)
+                highs.append(left[1][depth] - node.offset)
+            if depth < len(right[0]):
+                lows.append(right[0][depth] + node.offset)
+                highs.append(right[1][depth] + node.offset)
+            left_contour.append(min(lows))
+            right_contour.append(max(highs))
+        return left_contour, right_contour
 
     def transform(
         self,
